@@ -5,6 +5,7 @@ import CorgiProofs.EngineTop
 import CorgiProofs.EngineFrame
 import CorgiModel.Step
 import CorgiProofs.Reachable
+import CorgiProofs.Tracking
 
 set_option linter.unusedSectionVars false
 
@@ -134,6 +135,22 @@ theorem C09_only_reachable {σ σ' : State S} (hr : Reachable σ) (v : String) (
   rw [ofFn_getD _ _ _ _ hm, this]
   rfl
 
+
+/-- **The iff rule for every composite operation**: subtraction, `axpy`, `sum`, `reshape`, softmax,
+    matmul with its additive term, conv, both costs and both layer kinds return a result that is
+    tracked exactly when one of their array arguments (operands, parameters) is. -/
+theorem C09_iff_composites (σ : State S) (a b : Handle) (s : S) (k : Nat) (dims : List Nat) (sr sc : Nat) (l : Layer) :
+    TrkIs (hSub σ a b) (a.tracked || b.tracked) ∧ TrkIs (hAxpy σ s a b) (a.tracked || b.tracked) ∧
+    TrkIs (hSum σ a k) a.tracked ∧ TrkIs (hReshape σ a dims) a.tracked ∧ TrkIs (hSoftmax σ a) a.tracked ∧
+    TrkIs (hConv σ a b sr sc) (a.tracked || b.tracked) ∧
+    TrkIs (hMse σ a b) (b.tracked || a.tracked) ∧ TrkIs (hXent σ a b) (b.tracked || a.tracked) ∧
+    TrkIs (layerForward σ l a)
+      (match l with
+       | .dense w bb _ => a.tracked || w.tracked || bb.tracked
+       | .conv f bb _ _ _ => a.tracked || f.tracked || bb.tracked) :=
+  ⟨trk_hSub σ a b, trk_hAxpy σ s a b, trk_hSum σ a k, trk_hReshape σ a dims, trk_hSoftmax σ a, trk_hConv σ a b sr sc,
+   trk_hMse σ a b, trk_hXent σ a b, trk_layerForward σ l a⟩
+
 end Corgi
 
 #print axioms Corgi.C09_iff_ewise
@@ -143,3 +160,4 @@ end Corgi
 #print axioms Corgi.C09_flags_kept
 #print axioms Corgi.C09_clone_local
 #print axioms Corgi.C09_only_reachable
+#print axioms Corgi.C09_iff_composites
